@@ -94,6 +94,44 @@ def async_scenarios():
         yield plan
 
 
+def async_extra_scenarios():
+    """(a) writes to OTHER keys while a pop with a timeout waits: the timeout still counts from the moment the pop was sent; (b) a chain of two parked
+    consumers: the element moved by the first one's wake-up (inside its task, not inside a command) wakes the second"""
+    for blk, gap, n in (([b'blpop', b'l0', b'2'], 1.2, 2), ([b'brpop', b'l0', b'l1', b'1'], 0.4, 3), ([b'brpoplpush', b'l0', b'dst', b'3'], 1.0, 4), ([b'blpop', b'l0', b'1'], 0.6, 2)):
+        for other in ([b'set', b'k', b'v'], [b'rpush', b'unrelated', b'x'], [b'del', b'nokey'], [b'incr', b'n']):
+            def plan(s, rng, blk=blk, gap=gap, n=n, other=other):
+                yield ('open', 1)
+                yield ('open', 2)
+                yield ('cmd', 1, list(blk))
+                yield ('cmdq', 1, [b'ping'])
+                for _ in range(n):
+                    yield ('aadv', gap)
+                    if s.impl.socks[1]._paused:
+                        yield ('cmd', 2, list(other))
+                yield ('aadv', 0.01)
+                yield ('cmd', 2, [b'llen', b'l0'])
+                if not s.impl.socks[1]._paused:
+                    yield ('cmd', 1, [b'ping'])
+            yield plan
+    for first, second in (([b'brpoplpush', b'src', b'dst', b'0'], [b'blpop', b'dst', b'0']), ([b'brpoplpush', b'src', b'dst', b'5'], [b'brpop', b'other', b'dst', b'5']),
+                          ([b'brpoplpush', b'src', b'mid', b'0'], [b'brpoplpush', b'mid', b'dst', b'0'])):
+        for feed in ([[b'rpush', b'src', b'x']], [[b'multi'], [b'rpush', b'src', b'x', b'y'], [b'exec']], [[b'rpush', b'other2', b'z'], [b'lpush', b'src', b'x']]):
+            def plan2(s, rng, first=first, second=second, feed=feed):
+                for c in (1, 2, 3):
+                    yield ('open', c)
+                yield ('cmd', 1, list(first))
+                yield ('cmd', 2, list(second))
+                for f in feed:
+                    yield ('cmd', 3, list(f))
+                yield ('aadv', 0.01)
+                for k in (b'src', b'mid', b'dst'):
+                    yield ('cmd', 3, [b'lrange', k, b'0', b'-1'])
+                for c in (1, 2):
+                    if not s.impl.socks[c]._paused:
+                        yield ('cmd', c, [b'ping'])
+            yield plan2
+
+
 def plan_async_tx(length):
     """MULTI/EXEC on the asyncio front-end, with blocking pops (which must not block) and errors inside the queue"""
     def plan(s, rng):
